@@ -64,7 +64,7 @@ def run(chk):
   # 2a. TLC searches the size checks *as coded* for a violation of Conforms; the counter-example is replayed
   typedtree.mirror_search(chk, 'C03_mirror.cfg', 'list', False, hits, models['list'])
   # 2b. simulated behaviours; the second pass stays away from the two mechanisms with open findings
-  n1, d1, n2, d2 = (120, 15, 120, 30) if not thorough else (1500, 25, 1500, 40)
+  n1, d1, n2, d2 = (120, 15, 120, 30) if not thorough else (1000, 25, 1000, 40)
   for kind, partial, tag in KINDS:
     add(typedtree.replay_simulated(chk, kind, partial, f'C03_sim_{tag}.cfg', n1, d1, chk.seed, models[kind]))
     if thorough or not partial:
